@@ -167,6 +167,74 @@ def main(argv):
         run_history(Client, h, dnr=(i % 2 == 1), pfx=(b"" if i % 3 else b"ns:"), idx=len(hists) + i, out=out, kind=kind)
         nwrap += 1
     ctx.count("wrapper-histories", nwrap)
+    # ---- a server with an item size limit (as every real one has): a refused item inside a pipelined set_many, or on its own, and then the
+    #      calls that follow - every return value is compared with what that server did (a plain dict with the same limit) -----------------------
+    from pymemcache.client.base import PooledClient
+    from pymemcache.client.hash import HashClient
+    from pymemcache.exceptions import MemcacheServerError
+    big = b"B" * 5000
+    for kind in ("Client", "Pooled", "Hash1", "HashPooled"):
+        for first in ("set_many-big-in-the-middle", "set_many-big-first", "set-big", "add-big", "set_many-big-last"):
+            for mode in ("lines", "bytes", "one"):
+                srv = RefServer()
+                srv.max_item = 4096
+
+                def pieces(reply, _m=mode):
+                    if not reply or _m == "one":
+                        return [reply] if reply else []
+                    if _m == "bytes":
+                        return [reply[i:i + 1] for i in range(len(reply))]
+                    return [ln + b"\r\n" for ln in reply.split(b"\r\n")[:-1]]
+                world = World(server=lambda conn, data, _s=srv: pieces(_s.feed(conn.id, data)))
+                world.tag = 0
+                sm_ = FakeSocketModule(world)
+                if kind == "Client":
+                    cl = Client(("h", 1), socket_module=sm_, default_noreply=False)
+                elif kind == "Pooled":
+                    cl = PooledClient(("h", 1), socket_module=sm_, default_noreply=False, max_pool_size=2)
+                else:
+                    cl = HashClient([("h", 1)], socket_module=sm_, default_noreply=False, use_pooling=(kind == "HashPooled"))
+                oracle = {}
+                log = []
+
+                def step(desc, fn, want, _log=log):
+                    try:
+                        got = fn()
+                    except MemcacheServerError:
+                        got = "ServerError"
+                    except Exception as e:
+                        got = "exc:" + type(e).__name__
+                    _log.append((desc, repr(got)[:40]))
+                    return got == want, got
+                seq = [("set a", lambda: cl.set("a", b"1"), True), ("set k1", lambda: cl.set("k1", b"v1"), True), ("set n", lambda: cl.set("n", b"5"), True)]
+                if first == "set_many-big-in-the-middle":
+                    seq.append(("set_many x,big,c", lambda: cl.set_many({"x": b"1", "big": big, "c": b"3"}), "ServerError"))
+                    stored_c = True
+                elif first == "set_many-big-first":
+                    seq.append(("set_many big,x,c", lambda: cl.set_many({"big": big, "x": b"1", "c": b"3"}), "ServerError"))
+                    stored_c = True
+                elif first == "set_many-big-last":
+                    seq.append(("set_many x,c,big", lambda: cl.set_many({"x": b"1", "c": b"3", "big": big}), "ServerError"))
+                    stored_c = True
+                elif first == "set-big":
+                    seq.append(("set big", lambda: cl.set("big", big), "ServerError"))
+                    stored_c = False
+                else:
+                    seq.append(("add big", lambda: cl.add("big", big), "ServerError"))
+                    stored_c = False
+                seq += [("add c", lambda: cl.add("c", b"9"), not stored_c), ("get c", lambda: cl.get("c"), b"3" if stored_c else b"9"),
+                        ("delete x", lambda: cl.delete("x"), stored_c), ("delete x again", lambda: cl.delete("x"), False), ("get k1", lambda: cl.get("k1"), b"v1"),
+                        ("incr n", lambda: cl.incr("n", 1), 6), ("touch k1", lambda: cl.touch("k1", 100), True), ("get big", lambda: cl.get("big"), None),
+                        ("set k2", lambda: cl.set("k2", b"v2"), True), ("get k2", lambda: cl.get("k2"), b"v2")]
+                ctx.case(("size-limit", kind, first, mode))
+                ctx.count("size-limit-histories")
+                for desc, fn, want in seq:
+                    ok, got = step(desc, fn, want)
+                    if not ok:
+                        ctx.violation("after the server refused an oversized item, a return value does not report what the server did",
+                                      {"class": kind, "history": [d_ for d_, _ in log], "results": [r_ for _, r_ in log], "step": desc, "got": repr(got)[:60], "server_did": repr(want)[:60],
+                                       "reply_pieces": mode}, tags=["class:" + kind, "size-limit"])
+                        break
     if not ctx.lean.build_ok:
         ctx.finish()
     lines = []
